@@ -24,3 +24,31 @@ pub(crate) fn compaction_performed() {
 pub fn compactions_performed() -> u64 {
     COMPACTIONS.load(Ordering::SeqCst)
 }
+
+// Schedule widening: seeded yields at the points where other threads may interleave.
+
+static YIELD_SEED: AtomicU64 = AtomicU64::new(0);
+
+/// Enable (seed != 0) or disable (0) seeded yields at the instrumented points.
+pub fn set_yield_seed(seed: u64) {
+    YIELD_SEED.store(seed, Ordering::SeqCst);
+}
+
+/// A point at which another thread may usefully run; a no-op unless a seed is set.
+pub fn yield_point(label: u32) {
+    let s = YIELD_SEED.load(Ordering::Relaxed);
+    if s == 0 {
+        return;
+    }
+    // xorshift on a per-call mix of the seed, the label and a global counter
+    static COUNTER: AtomicU64 = AtomicU64::new(1);
+    let mut x = s ^ (label as u64).wrapping_mul(0x9e3779b97f4a7c15) ^ COUNTER.fetch_add(1, Ordering::Relaxed).wrapping_mul(0xbf58476d1ce4e5b9);
+    x ^= x << 13;
+    x ^= x >> 7;
+    x ^= x << 17;
+    match x % 8 {
+        0 => std::thread::sleep(std::time::Duration::from_micros(50 + x % 200)),
+        1 | 2 => std::thread::yield_now(),
+        _ => {}
+    }
+}
